@@ -9,7 +9,8 @@ func init() {
 // AES-GCM, from an arbitrary mirrored stream state. A frame the sender accepts
 // must be accepted by the receiver and come back byte-identical with its flag.
 func VH_C01_FrameStep() {
-	enc := vBool("enc")
+	mode := vChoice("mode", 3) // 0 plain, 1 keyed and encrypting, 2 keyed with crypto mode switched off on both sides
+	enc := mode == 1
 	n := vInt("n")
 	vAssume(n >= 0)
 	vAssume(n <= 1<<22)
@@ -19,8 +20,12 @@ func VH_C01_FrameStep() {
 	sc := &vhConn{}
 	rc := &vhConn{}
 	var s, r *Stream
-	if enc {
+	if mode >= 1 {
 		s, r = vhKeyedPair(sc, rc, "")
+		if mode == 2 {
+			s.SetCryptoMode(false)
+			r.SetCryptoMode(false)
+		}
 	} else {
 		s, r = vhNewStream(sc), vhNewStream(rc)
 	}
@@ -35,7 +40,14 @@ func VH_C01_FrameStep() {
 	vAssert(len(sc.outs) == 1, "one-write-per-frame")
 	vTag("wire_len", len(sc.outs[0])-5)
 	rc.feed(sc.outs[0])
-	out, flag, rerr := r.ReceiveFrameWithEnd(vhCtx)
+	var out []byte
+	var rerr error
+	flag := end
+	if vBool("withEnd") {
+		out, flag, rerr = r.ReceiveFrameWithEnd(vhCtx)
+	} else {
+		out, rerr = r.ReceiveFrame(vhCtx)
+	}
 	vAssert(rerr == nil, "receiver-accepts-what-sender-sent")
 	if rerr != nil {
 		return
@@ -49,6 +61,9 @@ func VH_C01_FrameStep() {
 		vAssert(r.decryptIV == s.encryptIV, "receiver-knows-iv-after-step")
 		vAssert(s.finishedSendAAD && r.finishedRecvAAD, "first-frame-flags-set")
 		vCover("roundtrip-encrypted")
+	} else if mode == 2 {
+		vAssert(s.encryptCounter == c0 && r.decryptCounter == c0, "cleartext-frame-leaves-counters-alone")
+		vCover("roundtrip-keyed-cleartext")
 	} else {
 		vCover("roundtrip-plain")
 	}
